@@ -52,7 +52,13 @@ class Run:
                 if a == 'CloseReopen':
                     faultfs.mark('call', action=a, pos=rp.st._pos)
                     rp.st.close()
-                    rp.st = FileStorage(rp.path)
+                    try:
+                        rp.st = FileStorage(rp.path)
+                    except Exception as ex:       # a reopen that fails is a divergence of the code, not of the machinery
+                        self.problems.append({'step': i, 'action': a,
+                                              'detail': ['reopen raised %s: %s' % (type(ex).__name__, str(ex)[-120:])]})
+                        rp.st = None
+                        break
                     faultfs.mark('ret', action=a, ok=True, pos=rp.st._pos)
                     continue
                 faultfs.mark('call', action=a, pos=rp.st._pos)
@@ -68,9 +74,10 @@ class Run:
         finally:
             faultfs.S.enabled = False
             try:
-                if rp.t is not None:
+                if rp.t is not None and rp.st is not None:
                     rp.st.tpc_abort(rp.t)
-                rp.st.close()
+                if rp.st is not None:
+                    rp.st.close()
             except Exception:
                 pass
 
@@ -176,7 +183,7 @@ class Run:
             if not ks:
                 return [], 'recovered transactions %r are not a version of the committed history' % (tids,)
             k = ks[-1]
-            rp2 = sd.StorageReplayer('file', self.rp.__dict__['cls'] and dict(self.c, Cls=self.rp.cls), imgdir, {})
+            rp2 = sd.StorageReplayer('file', dict(self.c, Cls=self.rp.cls), imgdir, {'oid_stride': self.rp.stride})
             rp2.st = st
             mm = rp2.compare(self.commits[k][1], hist=self.commits[k][0])
             if mm and len(ks) > 1:
@@ -280,8 +287,10 @@ class Run:
                 details.append({'at': i, 'kind': 'after', 'detail': det})
             cand = snaps[-3:] + snaps[:1]
             for si, sver, sb in cand:
-                for variant, content in (('whole', sb), ('cut-half', sb[:len(sb) // 2]), ('cut-1', sb[:-1])):
-                    if variant != 'whole' and rng.random() < 0.6:
+                for variant, content in (('whole', sb), ('cut-half', sb[:len(sb) // 2]), ('cut-1', sb[:-1]),
+                                         ('cut-quarter', sb[:len(sb) // 4]), ('cut-3quarters', sb[:3 * len(sb) // 4]),
+                                         ('cut-12', sb[:-12])):
+                    if variant != 'whole' and rng.random() < 0.55:
                         continue
                     extra = {IDX: content}
                     if rng.random() < 0.3:
